@@ -19,7 +19,11 @@ From Cfg Require Import Model.MapHub.
 Import ListNotations.
 Open Scope N_scope.
 
-Record schan := mkSC { sc_epoch : N; sc_map : list (key * entry); sc_log : list pub }.
+(* [sc_keep] = number of log entries appended since the stream last expired
+   (StreamTTL): only those can still be retained; [sc_sdead] / [sc_mdead] =
+   the stream / metadata deadlines (0 = none). *)
+Record schan := mkSC { sc_epoch : N; sc_map : list (key * entry); sc_log : list pub;
+                       sc_keep : nat; sc_sdead : N; sc_mdead : N }.
 
 Record sstate := mkSS {
   ss_chans : list (N * schan);
@@ -45,12 +49,21 @@ Definition ordered_of (cfgs : list rawcfg) (ch : N) : bool :=
   match cfg_of cfgs ch with CfgOk cf => cf_ordered cf | CfgErr _ => false end.
 
 Definition window (size : N) (log : list pub) : list pub := skipn (length log - N.to_nat size) log.
+Definition lastk (k : nat) (log : list pub) : list pub := skipn (length log - k) log.
+(* what a stream read can still see: the last StreamSize of the entries appended since the last stream expiry *)
+Definition retained (size : N) (c : schan) : list pub := window size (lastk (sc_keep c) (sc_log c)).
+
+Definition sttl_of (cfgs : list rawcfg) (ch : N) : N :=
+  match cfg_of cfgs ch with CfgOk cf => cf_sttl cf | CfgErr _ => 0 end.
+(* every touch of a channel with MetaTTL pushes its metadata deadline to now + MetaTTL *)
+Definition touch_mdead (mttl now : N) (c : schan) : schan :=
+  if 0 <? mttl then mkSC (sc_epoch c) (sc_map c) (sc_log c) (sc_keep c) (sc_sdead c) (now + mttl) else c.
 
 (* the channel comes into existence with a fresh epoch on first touch *)
 Definition s_ensure (s : sstate) (ch : N) : sstate * schan :=
   match s_get s ch with
   | Some c => (s, c)
-  | None => let c := mkSC (ss_nep s) [] [] in
+  | None => let c := mkSC (ss_nep s) [] [] 0 0 0 in
             (mkSS (aset N.eqb (ss_chans s) ch c) (ss_idem s) (ss_now s) (ss_nep s + 1) (ss_bcast s), c)
   end.
 
@@ -135,9 +148,10 @@ Definition spec_publish (cfgs : list rawcfg) (s : sstate) (ch : N) (k : key) (o 
             match r, cur with
             | RKeyExists, Some e =>
                 if po_refresh o && (0 <? cf_keyttl cf)
-                then s_set s1 ch (mkSC (sc_epoch c)
+                then s_set s1 ch (touch_mdead (cf_mttl cf) (ss_now s)
+                                    (mkSC (sc_epoch c)
                                        (aset key_eqb (sc_map c) k (mkEntry (e_pub e) (ss_now s + cf_keyttl cf) (e_ver e) (e_vep e)))
-                                       (sc_log c))
+                                       (sc_log c) (sc_keep c) (sc_sdead c) (sc_mdead c)))
                 else s1
             | _, _ => s1
             end in
@@ -152,7 +166,10 @@ Definition spec_publish (cfgs : list rawcfg) (s : sstate) (ch : N) (k : key) (o 
             else (po_ver o, po_vep o) in
           let map' := if is_empty k then sc_map c
                       else aset key_eqb (sc_map c) k (mkEntry p (deadline cf (ss_now s)) ver vep) in
-          let c' := mkSC (sc_epoch c) map' log' in
+          let c' := if stream
+                    then touch_mdead (cf_mttl cf) (ss_now s)
+                           (mkSC (sc_epoch c) map' log' (S (sc_keep c)) (ss_now s + cf_sttl cf) (sc_mdead c))
+                    else mkSC (sc_epoch c) map' log' (sc_keep c) (sc_sdead c) (sc_mdead c) in
           let prev := if po_delta o && negb (is_empty k)
                       then match cur with Some e => Some (e_pub e) | None => None end else None in
           let s2 := s_idem_save (s_set s1 ch c') ch (po_idem o) (s_pos c') (po_idemttl o) in
@@ -193,7 +210,10 @@ Definition spec_remove (cfgs : list rawcfg) (s : sstate) (ch : N) (k : key) (o :
             let off := if stream then N.of_nat (length (sc_log c)) + 1 else 0 in
             let tags := match ro_tags o with Some t => Some t | None => p_tags (e_pub e) end in
             let p := mkPub k off 0 tags true 0%Z in
-            let c' := mkSC (sc_epoch c) (adel key_eqb (sc_map c) k) (if stream then sc_log c ++ [p] else sc_log c) in
+            let c' := if stream
+                      then touch_mdead (cf_mttl cf) (ss_now s)
+                             (mkSC (sc_epoch c) (adel key_eqb (sc_map c) k) (sc_log c ++ [p]) (S (sc_keep c)) (ss_now s + cf_sttl cf) (sc_mdead c))
+                      else mkSC (sc_epoch c) (adel key_eqb (sc_map c) k) (sc_log c) (sc_keep c) (sc_sdead c) (sc_mdead c) in
             let s2 := s_idem_save (s_set s ch c') ch (ro_idem o) (s_pos c') (ro_idemttl o) in
             (s_bcast s2 (mkBc ch p (s_pos c') false None), URes (s_pos c') false RNone None)
         end
@@ -231,16 +251,19 @@ Definition spec_stream_read (w : list pub) (top : N) (since : option N) (limit :
 
 Definition spec_read_stream (cfgs : list rawcfg) (s : sstate) (ch : N) (since : option pos) (limit : Z) (reverse : bool)
   : sstate * sres :=
+  let '(s1, c0) := s_ensure s ch in
+  let c := touch_mdead (mttl_of cfgs ch) (ss_now s) c0 in
+  let s2 := s_set s1 ch c in
   match s_get s ch with
-  | None => let '(s1, c) := s_ensure s ch in (s1, SOk [] (s_pos c))
-  | Some c =>
-    let w := window (size_of cfgs ch) (sc_log c) in
+  | None => (s2, SOk [] (s_pos c))
+  | Some _ =>
+    let w := retained (size_of cfgs ch) c in
     let top := N.of_nat (length (sc_log c)) in
     match since with
     | Some (so, se) =>
-        if negb (se =? 0) && negb (se =? sc_epoch c) then (s, SUnrec)
-        else (s, SOk (spec_stream_read w top (Some so) limit reverse) (s_pos c))
-    | None => (s, SOk (spec_stream_read w top None limit reverse) (s_pos c))
+        if negb (se =? 0) && negb (se =? sc_epoch c) then (s2, SUnrec)
+        else (s2, SOk (spec_stream_read w top (Some so) limit reverse) (s_pos c))
+    | None => (s2, SOk (spec_stream_read w top None limit reverse) (s_pos c))
     end
   end.
 
@@ -292,14 +315,16 @@ Definition spec_read_state (cfgs : list rawcfg) (s : sstate) (ch : N)
   match cfg_of cfgs ch with
   | CfgErr e => (s, StErr e)
   | CfgOk cf =>
+    let '(s1, c0) := s_ensure s ch in
+    let c := touch_mdead (cf_mttl cf) (ss_now s) c0 in
+    let s2 := s_set s1 ch c in
     match s_get s ch with
     | None =>
-        let '(s1, c) := s_ensure s ch in
         match rev with
-        | Some (_, re) => if negb (re =? 0) then (s1, StUnrec (s_pos c)) else (s1, StOk [] (s_pos c) [])
-        | None => (s1, StOk [] (s_pos c) [])
+        | Some (_, re) => if negb (re =? 0) then (s2, StUnrec (s_pos c)) else (s2, StOk [] (s_pos c) [])
+        | None => (s2, StOk [] (s_pos c) [])
         end
-    | Some c => (s, spec_state_read (cf_ordered cf) (sc_map c) (s_pos c) rev cursor limit k asc)
+    | Some _ => (s2, spec_state_read (cf_ordered cf) (sc_map c) (s_pos c) rev cursor limit k asc)
     end
   end.
 
@@ -321,7 +346,8 @@ Definition expire_one (cfgs : list rawcfg) (s : sstate) (it : ck) : sstate :=
       let size := size_of cfgs ch in
       let off := if 0 <? size then N.of_nat (length (sc_log c)) + 1 else 0 in
       let p := mkPub k off 0 (p_tags (e_pub e)) true 0%Z in
-      let c' := mkSC (sc_epoch c) (adel key_eqb (sc_map c) k) (if 0 <? size then sc_log c ++ [p] else sc_log c) in
+      let c' := mkSC (sc_epoch c) (adel key_eqb (sc_map c) k) (if 0 <? size then sc_log c ++ [p] else sc_log c)
+                     (if 0 <? size then S (sc_keep c) else sc_keep c) (sc_sdead c) (sc_mdead c) in
       s_bcast (s_set s ch c') (mkBc ch p (s_pos c') false None)
     end
   end.
@@ -336,6 +362,21 @@ Fixpoint spec_sweep (cfgs : list rawcfg) (fuel : nat) (s : sstate) : sstate :=
            end
   end.
 
+(* StreamTTL elapsed: the stream's entries are dropped (offsets and epoch stay);
+   MetaTTL elapsed: the channel is forgotten altogether (a later touch creates
+   it afresh with a new epoch).  The idempotency cache is not part of the
+   channel and survives, as in the broker. *)
+Definition due (d now : N) : bool := (0 <? d) && (d <=? now).
+Definition spec_expire_streams (s : sstate) : sstate :=
+  mkSS (map (fun ic => (fst ic,
+                        let c := snd ic in
+                        if due (sc_sdead c) (ss_now s)
+                        then mkSC (sc_epoch c) (sc_map c) (sc_log c) 0 0 (sc_mdead c) else c)) (ss_chans s))
+       (ss_idem s) (ss_now s) (ss_nep s) (ss_bcast s).
+Definition spec_remove_channels (s : sstate) : sstate :=
+  mkSS (filter (fun ic => negb (due (sc_mdead (snd ic)) (ss_now s))) (ss_chans s))
+       (ss_idem s) (ss_now s) (ss_nep s) (ss_bcast s).
+
 (* ------------------------------------------------------------------- steps *)
 Definition spec_step (cfgs : list rawcfg) (s : sstate) (o : op) : sstate * res :=
   match o with
@@ -347,7 +388,8 @@ Definition spec_step (cfgs : list rawcfg) (s : sstate) (o : op) : sstate * res :
   | OAdvance n => (mkSS (ss_chans s) (ss_idem s) (ss_now s + n) (ss_nep s) (ss_bcast s), RUnit)
   | OSweep => (spec_sweep cfgs (length (s_expired s)) s, RUnit)
   | OPhase1 | OPhase2 => (s, RBlocked)       (* not operations of the reference map *)
-  | OExpireStreams | ORemoveChannels => (s, RBlocked)
+  | OExpireStreams => (spec_expire_streams s, RUnit)
+  | ORemoveChannels => (spec_remove_channels s, RUnit)
   end.
 
 Definition obs := (res * list bcast)%type.
@@ -369,4 +411,8 @@ Fixpoint run_obs (cfgs : list rawcfg) (h : hub) (ops : list op) : list obs :=
       (r, skipn (length (h_bcast h)) (h_bcast h1)) :: run_obs cfgs h1 ops'
   end.
 
-Definition seq_op (o : op) : bool := match o with OPhase1 | OPhase2 | OExpireStreams | ORemoveChannels => false | _ => true end.
+Definition seq_op (o : op) : bool := match o with OPhase1 | OPhase2 => false | _ => true end.
+(* operations covered by the refinement proof so far (the StreamTTL / MetaTTL sweep iterations are compared
+   differentially only) *)
+Definition ref_op (o : op) : bool :=
+  match o with OPhase1 | OPhase2 | OExpireStreams | ORemoveChannels => false | _ => true end.
